@@ -69,6 +69,8 @@ func (e *Env) evalBool(x *SExpr) (s string, err error) {
 }
 
 func (e *Env) evalTop(x *SExpr) (t Term, err error) {
+	e.fe.specDepth++
+	defer func() { e.fe.specDepth-- }()
 	defer func() {
 		if r := recover(); r != nil {
 			if ee, ok := r.(evalErr); ok {
